@@ -51,8 +51,23 @@ def href_program(draw):
         else:
             obj = draw(gen.calendar_object(uid=f"uid-{uid}"))
             steps.append({"op": "PUT", "fe": fe, "coll": coll, "name": stem + ".ics", "ctype": "text/calendar", "body": enc_body(obj["raw"]), "cond": []})
+    if draw(st.booleans()):
+        cfg["audit"] = "sparse"  # nothing but the program's own requests reaches the server between probes
     n = draw(st.integers(5, 12))
     for _ in range(n):
+        if draw(st.integers(0, 3)) == 0:
+            # reshape the layout between probes: create / delete / re-create sub-collections and delete members
+            k = draw(st.sampled_from(["mk", "mk", "del", "del", "delmember"]))
+            slot = draw(st.sampled_from(["c2", "n1", "x1", "c1", "a1"]))
+            if k == "mk":
+                steps.append({"op": "MKCOL", "fe": draw(gen_prog.FE), "coll": slot, "kind": draw(st.sampled_from(["plain", "mkcalendar", "ext-calendar", "ext-addressbook"])), "props": []})
+            elif k == "del":
+                steps.append({"op": "DELETE", "fe": draw(gen_prog.FE), "coll": slot, "name": None, "slash": draw(st.booleans())})
+            else:
+                nm = [x["name"] for x in steps if x["op"] == "PUT"]
+                if nm:
+                    victim = draw(st.sampled_from([x for x in steps if x["op"] == "PUT"]))
+                    steps.append({"op": "DELETE", "fe": draw(gen_prog.FE), "coll": victim["coll"], "name": victim["name"], "cond": []})
         what = draw(st.sampled_from(PROBES))
         coll = draw(st.sampled_from(["c1", "c1", "a1", "a1", "h1", "h2", "n1", "c2", "b1", "x1"]))
         stp = {"op": "HREFS", "fe": draw(gen_prog.FE), "coll": coll, "what": what, "slash": draw(st.sampled_from([True, True, False])), "k": draw(st.integers(0, 5)), "depth": draw(st.sampled_from([0, 1]))}
